@@ -14,15 +14,16 @@ use ark_ff::{UniformRand, Zero};
 use ark_poly_commit::{Evaluations, LabeledCommitment, QuerySet};
 use ark_std::rand::Rng;
 
-pub const KINDS: &[&str] = &["value", "point-coordinate", "commitment-element", "degree-bound-label", "proof-element", "vk-element"];
+pub const KINDS: &[&str] = &["value", "point-coordinate", "commitment-element", "degree-bound-label", "proof-element", "vk-element", "lc-coefficient", "lc-constant"];
 
 pub fn generate(run_seed: u64) -> Scenario {
     let mut g = Gen::new(run_seed);
     let scheme = pick_scheme(&mut g.r, &|_| true);
     let (cfg, polys) = g.workload(&scheme, 3);
-    let points = g.points(3);
+    let mut points = g.points(3);
     let n_ops = g.r.gen_range(1..=2);
-    let ops: Vec<Op> = (0..n_ops).map(|_| g.open_or_batch(polys.len(), points.len(), 0.35)).collect();
+    let mut ops: Vec<Op> = (0..n_ops).map(|_| g.any_op(&polys, points.len(), 0.25, 0.35)).collect();
+    g.lc_stress(&polys, &mut points, &mut ops);
     let mut faults = vec![];
     for oi in 0..n_ops {
         for k in KINDS {
@@ -70,6 +71,83 @@ fn reference_batch<S: Scheme>(vk: &Vk<S>, comms: &[LabeledCommitment<Comm<S>>], 
     Some(all)
 }
 
+/// Reference decision for `check_combinations`: the LC statement reduced to a batch statement by
+/// the harness's own algebra, then the per-point reference relation.
+fn reference_lc<S: Scheme>(
+    vk: &Vk<S>,
+    comms: &[LabeledCommitment<Comm<S>>],
+    lcs: &[ark_poly_commit::LinearCombination<S::F>],
+    qs: &QuerySet<S::Pt>,
+    evals: &Evaluations<S::Pt, S::F>,
+    proof: &ark_poly_commit::BatchLCProof<S::F, BatchProof<S>>,
+    sp: &mut TraceSponge<S::F>,
+) -> Option<bool> {
+    use ark_ff::One;
+    use ark_poly_commit::LCTerm;
+    let lc_of = |label: &String| lcs.iter().find(|l| l.label() == label);
+    match &proof.evals {
+        Some(transmitted) => {
+            // default path: one transmitted evaluation per distinct (polynomial, point), sorted
+            let mut poly_qs: QuerySet<S::Pt> = QuerySet::new();
+            for (l, (pl, pt)) in qs.iter() {
+                let Some(lc) = lc_of(l) else { continue };
+                for (_, t) in lc.terms.iter() {
+                    if let LCTerm::PolyLabel(p) = t {
+                        poly_qs.insert((p.clone(), (pl.clone(), pt.clone())));
+                    }
+                }
+            }
+            let keys: std::collections::BTreeSet<(String, S::Pt)> = poly_qs.iter().map(|(p, (_, pt))| (p.clone(), pt.clone())).collect();
+            if keys.len() != transmitted.len() {
+                return Some(false);
+            }
+            let poly_evals: Evaluations<S::Pt, S::F> = keys.into_iter().zip(transmitted.iter().copied()).collect();
+            for (l, (_, pt)) in qs.iter() {
+                let Some(lc) = lc_of(l) else { continue };
+                let claimed = *evals.get(&(l.clone(), pt.clone()))?;
+                let mut acc = S::F::zero();
+                for (c, t) in lc.terms.iter() {
+                    acc += *c * match t {
+                        LCTerm::One => S::F::one(),
+                        LCTerm::PolyLabel(p) => *poly_evals.get(&(p.clone(), pt.clone()))?,
+                    };
+                }
+                if acc != claimed {
+                    return Some(false);
+                }
+            }
+            reference_batch::<S>(vk, comms, &poly_qs, &poly_evals, &proof.proof, sp)
+        }
+        None => {
+            // homomorphic path: LC commitments, constants moved to the value side once per (LC, point)
+            let mut lc_comms = vec![];
+            let mut adjusted = evals.clone();
+            for lc in lcs.iter() {
+                let mut terms = vec![];
+                let mut bound = None;
+                let mut konst = S::F::zero();
+                for (c, t) in lc.terms.iter() {
+                    match t {
+                        LCTerm::One => konst += *c,
+                        LCTerm::PolyLabel(p) => {
+                            let cm = comms.iter().find(|x| x.label() == p)?;
+                            if cm.degree_bound().is_some() {
+                                if lc.terms.len() == 1 && c.is_one() { bound = cm.degree_bound(); } else { return Some(false); }
+                            }
+                            terms.push((*c, cm.commitment()));
+                        }
+                    }
+                }
+                for ((l, _), v) in adjusted.iter_mut() {
+                    if l == lc.label() { *v -= konst; }
+                }
+                lc_comms.push(LabeledCommitment::new(lc.label().clone(), S::combine_comms(&terms)?, bound));
+            }
+            reference_batch::<S>(vk, &lc_comms, qs, &adjusted, &proof.proof, sp)
+        }
+    }
+}
+
 pub fn run<S: Scheme>(scn: &Scenario, log: &EventLog) -> RunResult {
     let mut res = RunResult::default();
     let fam = format!("{:?}", S::FAMILY);
@@ -78,7 +156,13 @@ pub fn run<S: Scheme>(scn: &Scenario, log: &EventLog) -> RunResult {
         if do_restarts(&mut sess, i).is_err() {
             break;
         }
-        let Some(claim) = honest_claim(&mut sess, op, i, &mut res) else { break };
+        // no acceptance precondition: "the library rejects an honest transcript for which the relation
+        // holds" is itself a disagreement between the two decision procedures
+        let claim = match sess.prove(op, i as u64) {
+            Outcome::Ok(c) => c,
+            _ => { res.stats.probe("vacuous:honest-prover-failed"); break }
+        };
+        let Ok(claim) = claim.through_channel(&scn.env, 500 + i as u64) else { res.stats.probe("vacuous:channel"); break };
         let shape = op_shape(op, scn);
         let kind = op_kind(op);
         // transcripts of the neighbourhood: (component name, verifier key, commitment list, claim)
@@ -86,7 +170,12 @@ pub fn run<S: Scheme>(scn: &Scenario, log: &EventLog) -> RunResult {
         let labels_of_op: Vec<String> = match &claim {
             Claim::Open { labels, .. } => labels.clone(),
             Claim::Batch { qs, .. } => qs.iter().map(|q| q.0.clone()).collect(),
-            _ => vec![],
+            Claim::Lc { lcs, .. } => {
+                let mut v: Vec<String> = lcs.iter().flat_map(|l| l.terms.iter().filter_map(|t| match &t.1 { ark_poly_commit::LCTerm::PolyLabel(p) => Some(p.clone()), _ => None })).collect();
+                v.sort();
+                v.dedup();
+                v
+            }
         };
         for (fi, f) in scn.faults.iter().enumerate().filter(|(_, f)| f.op == i) {
             let vseed = mix64(scn.seed, "c10", fi as u64);
@@ -95,8 +184,7 @@ pub fn run<S: Scheme>(scn: &Scenario, log: &EventLog) -> RunResult {
                     let mut c = claim.clone();
                     match &mut c {
                         Claim::Open { values, .. } => { let n = values.len(); values[f.target % n] += delta::<S::F>(scn.seed, f.param); }
-                        Claim::Batch { evals, .. } => { let n = evals.len(); if let Some(v) = evals.values_mut().nth(f.target % n) { *v += delta::<S::F>(scn.seed, f.param); } }
-                        _ => {}
+                        Claim::Batch { evals, .. } | Claim::Lc { evals, .. } => { let n = evals.len(); if let Some(v) = evals.values_mut().nth(f.target % n) { *v += delta::<S::F>(scn.seed, f.param); } }
                     }
                     cases.push(("value".into(), sess.verifier.vk.clone(), sess.verifier.comms.clone(), c));
                 }
@@ -104,7 +192,7 @@ pub fn run<S: Scheme>(scn: &Scenario, log: &EventLog) -> RunResult {
                     let mut c = claim.clone();
                     let ok = match &mut c {
                         Claim::Open { point, .. } => { if S::P::point_len(point) == 0 { false } else { *point = S::P::shift_point(point, f.target, delta::<S::F>(scn.seed, f.param)); true } }
-                        Claim::Batch { qs, evals, .. } => {
+                        Claim::Batch { qs, evals, .. } | Claim::Lc { qs, evals, .. } => {
                             // move the point of one point label (statement keys move with it)
                             let Some((_, (pl, old))) = qs.iter().nth(f.target % qs.len()).cloned() else { continue };
                             if S::P::point_len(&old) == 0 { false } else {
@@ -118,7 +206,6 @@ pub fn run<S: Scheme>(scn: &Scenario, log: &EventLog) -> RunResult {
                                 true
                             }
                         }
-                        _ => false,
                     };
                     if ok { cases.push(("point-coordinate".into(), sess.verifier.vk.clone(), sess.verifier.comms.clone(), c)); }
                 }
@@ -163,8 +250,46 @@ pub fn run<S: Scheme>(scn: &Scenario, log: &EventLog) -> RunResult {
                             cases.push((format!("proof.{name}"), sess.verifier.vk.clone(), sess.verifier.comms.clone(), c));
                         }
                     }
-                    _ => {}
+                    Claim::Lc { proof, .. } => {
+                        let list: Vec<Proof<S>> = proof.proof.clone().into();
+                        if list.is_empty() { continue; }
+                        let g = f.target % list.len();
+                        for (name, p2) in S::proof_variants(&list[g], vseed).into_iter().filter(|(n, _)| shape_preserving(n)) {
+                            let mut l2 = list.clone();
+                            l2[g] = p2;
+                            let mut c = claim.clone();
+                            if let Claim::Lc { proof, .. } = &mut c { proof.proof = l2.into(); }
+                            cases.push((format!("proof.{name}"), sess.verifier.vk.clone(), sess.verifier.comms.clone(), c));
+                        }
+                        if let Some(ev) = &proof.evals {
+                            if !ev.is_empty() {
+                                let mut c = claim.clone();
+                                if let Claim::Lc { proof, .. } = &mut c { let k = f.aux % ev.len(); proof.evals.as_mut().unwrap()[k] += delta::<S::F>(scn.seed, f.param); }
+                                cases.push(("proof.evals[k]-replaced".into(), sess.verifier.vk.clone(), sess.verifier.comms.clone(), c));
+                            }
+                        }
+                    }
                 },
+                "lc-coefficient" | "lc-constant" => {
+                    if let Claim::Lc { lcs, .. } = &claim {
+                        let mut c = claim.clone();
+                        let l = f.target % lcs.len();
+                        let ok = if let Claim::Lc { lcs, .. } = &mut c {
+                            if f.kind == "lc-coefficient" {
+                                let t = f.aux % lcs[l].terms.len();
+                                lcs[l].terms[t].0 += delta::<S::F>(scn.seed, f.param);
+                                true
+                            } else {
+                                match lcs[l].terms.iter_mut().find(|t| t.1.is_one()) {
+                                    Some(t) => t.0 += delta::<S::F>(scn.seed, f.param),
+                                    None => lcs[l].terms.push((delta::<S::F>(scn.seed, f.param), ark_poly_commit::LCTerm::One)),
+                                }
+                                true
+                            }
+                        } else { false };
+                        if ok { cases.push((f.kind.clone(), sess.verifier.vk.clone(), sess.verifier.comms.clone(), c)); }
+                    }
+                }
                 "vk-element" => {
                     for (name, vk2) in S::vk_variants(&sess.verifier.vk, vseed) {
                         cases.push((name, vk2, sess.verifier.comms.clone(), claim.clone()));
@@ -196,7 +321,10 @@ pub fn run<S: Scheme>(scn: &Scenario, log: &EventLog) -> RunResult {
                     Outcome::Ok(r) => r,
                     _ => Some(false),
                 },
-                _ => None,
+                Claim::Lc { lcs, qs, evals, proof } => match step(|| Ok::<_, String>(reference_lc::<S>(vk, comms, lcs, qs, evals, proof, &mut sp_r))) {
+                    Outcome::Ok(r) => r,
+                    _ => Some(false),
+                },
             };
             let Some(refd) = refd else { res.stats.probe("no-reference"); continue };
             res.stats.fire(if name == "honest" { "honest" } else { name.split('.').next().unwrap() });
